@@ -4,6 +4,7 @@
         (how the traceparent ctxt is held: plain, boxed / shared erased, AssertInternal-wrapped, or as the erased ctxt of an
          AmbientSlot runtime — the model is the same for all: wrappers are transparent, property C03)
         P ::= event | (span P…) | (spant P…) | (spana P…) | (push (TRACE SPAN FLAGS) P…) | (carry P…)
+            | (pushs TS P…) | (pushb (TRACE SPAN FLAGS) TS P…)      TS ::= N (0 = the empty tracestate; text "sN")
         TRACE, SPAN ::= none | N with N ≥ 1000000 (ids that arrive in headers; rng-drawn ids are the counter 1,2,3…)
     → the observation log, oldest first, then `calls=N cur=(T S F)`
 -/
@@ -38,6 +39,15 @@ partial def prog? : Sexp → Option Prog
     let tp ← tp? tp
     let cs ← progs? cs
     pure (.push tp cs)
+  | .list (.atom "pushs" :: ts :: cs) => do
+    let ts ← ts.nat?
+    let cs ← progs? cs
+    pure (.pushState ts cs)
+  | .list (.atom "pushb" :: tp :: ts :: cs) => do
+    let tp ← tp? tp
+    let ts ← ts.nat?
+    let cs ← progs? cs
+    pure (.pushBoth tp ts cs)
   | _ => none
 partial def progs? (cs : List Sexp) : Option (List Prog) := cs.mapM prog?
 end
@@ -54,7 +64,7 @@ def showObs : Obs → String
   | .sampler t s d => s!"(sampler {showId t} {showId (some s)} {d})"
   | .spanOpen en ids => s!"(open {en} {showIds ids})"
   | .spanDone ids => s!"(done {showIds ids})"
-  | .event cur ids p1 p2 => s!"(event {showTP cur} {showIds ids} {p1} {p2})"
+  | .event cur st ids p1 p2 => s!"(event {showTP cur} {st} {showIds ids} {p1} {p2})"
 
 def countSpans : List Obs → Nat
   | [] => 0
@@ -70,8 +80,8 @@ def runC18 (line : String) : String :=
       let e := runList ⟨hs, ds, outside⟩ ps env0
       let obs := e.out.reverse
       let nspan := countSpans obs
-      let sig := if obs.length ≤ 1 then "trivial" else s!"spans={min nspan 6},calls={min e.calls 4},push={(line.splitOn "push").length - 1 |> min 3},thread={(line.splitOn "spant").length + (line.splitOn "carry").length - 2 |> min 3}"
-      s!"{" ".intercalate (obs.map showObs)} calls={e.calls} cur={showTP (current e.st)}\t{sig}"
+      let sig := if obs.length ≤ 1 then "trivial" else s!"spans={min nspan 6},calls={min e.calls 4},push={(line.splitOn "(push ").length - 1 |> min 3},pushs={(line.splitOn "(pushs ").length + (line.splitOn "(pushb ").length - 2 |> min 3},thread={(line.splitOn "spant").length + (line.splitOn "carry").length - 2 |> min 3}"
+      s!"{" ".intercalate (obs.map showObs)} calls={e.calls} cur={showTP (current e.st)} state={currentState e.st}\t{sig}"
     | _, _, _, _ => "bad-op"
   | _ => "bad-op"
 
